@@ -14,3 +14,13 @@ check_C18() {
   build_inpkg c18_static_route_verif_test.go
   inpkg_test inpkg TestVerifC18
 }
+
+check_C05() {
+  build_inpkg c05_rotation_verif_test.go
+  inpkg_test inpkg TestVerifC05
+}
+
+check_C20() {
+  build_inpkg c20_sendfaults_verif_test.go
+  inpkg_test inpkg TestVerifC20
+}
